@@ -1216,7 +1216,7 @@ def check_c17(tier, seed):
     cfg_table, cfg_extra = cfg_coverage(cfgs)
     cfgs = cfgs + cfg_extra
     build_all(cfgs)
-    hist = {"quick": 1500, "thorough": max(1500, int(20000 * THOROUGH_SCALE))}[tier]
+    hist = {"quick": 1500, "thorough": max(1500, int(10000 * THOROUGH_SCALE))}[tier]
     det = selftest_determinism("sse2-rel", seed, [["c17", "--histories", 60, "--no-grid"]], seeds=2 if tier == "quick" else 16)
     results, results_ff = [], []
     for c in cfgs:
